@@ -142,6 +142,50 @@ func zeroforge(a *hx.Args, res *hx.Result) {
 			res.Count(fmt.Sprintf("unreduced-base:accepted=%v", ok2))
 		}
 	}
+	// an honest proof must not tell the real branch of an exponentiation step from the simulated one: if it does, the bits of
+	// the secret exponent (p'-1)/2 can be read off it
+	{
+		P := new(gobig.Int).Add(new(gobig.Int).Lsh(ga, 1), b1)
+		Q := new(gobig.Int).Add(new(gobig.Int).Lsh(gb, 1), b1)
+		n := new(gobig.Int).Mul(P, Q)
+		res.Eval("exponent-bit-leak")
+		var leaked []string
+		panicked, msg := hx.Try(func() {
+			st := keyproof.NewValidKeyProofStructure(G(n), []*big.Int{big.NewInt(36), big.NewInt(49)})
+			built := st.BuildProof(G(ga), G(gb))
+			bts, err := json.Marshal(built)
+			if err != nil {
+				hx.Fatal("marshal: %v", err)
+			}
+			var proof keyproof.ValidKeyProof
+			if err := json.Unmarshal(bts, &proof); err != nil {
+				hx.Fatal("unmarshal: %v", err)
+			}
+			for name, pp := range map[string]keyproof.PrimeProof{"pprime": proof.PprimeIsPrimeProof, "qprime": proof.QprimeIsPrimeProof} {
+				for ename, exp := range map[string]keyproof.ExpProof{"a": pp.AExpProof, "aneg": pp.AnegExpProof} {
+					// the distinguisher: is the multiplier of step i sent as a copy of the base power commitment?
+					h := new(gobig.Int)
+					for i := range exp.InterStepsProofs {
+						if exp.InterStepsProofs[i].Bproof.Mul.Commit.Cmp(exp.BasePowProofs[i].Commit) == 0 {
+							h.SetBit(h, i, 1)
+						}
+					}
+					cand := new(gobig.Int).Add(new(gobig.Int).Lsh(h, 2), gobig.NewInt(3)) // p = 2(2h+1)+1
+					if cand.Cmp(b1) > 0 && cand.Cmp(n) < 0 && new(gobig.Int).Mod(n, cand).Sign() == 0 {
+						leaked = append(leaked, name+"/"+ename)
+					}
+				}
+			}
+		})
+		switch {
+		case panicked:
+			res.Violation("keyproof-panic", "building an honest key proof panicked: "+msg, hx.M{})
+		case len(leaked) > 0:
+			res.Violation("key-proof-reveals-factor", fmt.Sprintf("an honest ValidKeyProof (after JSON) reveals a factor of n: in the exponentiation proofs %v the real branch of every step is recognisable (Bproof.Mul.Commit equals BasePowProofs[i].Commit exactly for the 1 bits of the exponent (p'-1)/2)", leaked), hx.M{"n": n.String()})
+		default:
+			res.Count("exponent-bit-leak:none")
+		}
+	}
 	seeds := make([]int64, len(jobs))
 	for i := range seeds {
 		seeds[i] = rng.Int63()
